@@ -38,6 +38,7 @@ pub fn dispatch(p: &[String]) -> String {
         "from_bits" => generated::from_bits(&p[1], p[2].parse::<u32>().unwrap()),
         "operand_params" => generated::operand_params(&p[1], p[2].parse::<u32>().unwrap_or(0)),
         "operand_requires" => generated::operand_requires(&p[1], p[2].parse::<u32>().unwrap_or(0)),
+        "builder_call" => generated::builder_call(&p[1], p[2].parse::<u32>().unwrap_or(2)),
         "scenario" => {
             let raw = unhex(if p.len() > 2 { &p[2] } else { "" });
             match vscen::run(&p[1], &raw) {
